@@ -471,10 +471,13 @@ impl AnnotationStore {
                 self.get_mut(dataset_id.as_str())
                     .expect("must exist when has() returns true")
             } else {
-                let inserted_intid = self
-                    .insert(AnnotationDataSet::new(self.config().clone()).with_id(dataset_id))?;
-                self.get_mut(inserted_intid)
-                    .expect("must exist after insertion")
+                // the data goes into the new dataset first and only then the dataset goes into the store:
+                // when the data is refused, no empty dataset is left behind
+                let mut dataset = AnnotationDataSet::new(self.config().clone()).with_id(dataset_id);
+                let data_handle =
+                    dataset.insert_data(dataitem.id, dataitem.key, dataitem.value, true)?;
+                let set_handle = self.insert(dataset)?;
+                return Ok((set_handle, data_handle));
             }
         };
 
